@@ -128,7 +128,7 @@ func (nc *nilCtx) mayBeNil0(v ssa.Value) bool {
 				if owner == "md.EntityDescriptorType" && fv.Name() == "SPSSODescriptor" && nc.spInvOK {
 					// the metadata object of a ServiceProvider (whatever variable or cache the provider came from)
 					if ld, ok := a.X.(*ssa.UnOp); ok {
-						if mfa, ok := ld.X.(*ssa.FieldAddr); ok && fieldOwner(mfa.X.Type()) == "serviceprovider.ServiceProvider" && fieldVar(mfa.X.Type(), mfa.Field).Name() == "Metadata" {
+						if mfa, ok := ld.X.(*ssa.FieldAddr); ok && fieldOwner(mfa.X.Type()) == "serviceprovider.ServiceProvider" && fname(fieldVar(mfa.X.Type(), mfa.Field)) == "Metadata" {
 							return false
 						}
 					}
@@ -423,7 +423,7 @@ func checkC09(cx *Ctx, r *Report) {
 				what := ""
 				switch x := in.(type) {
 				case *ssa.FieldAddr:
-					ptr, what = x.X, "field "+fieldVar(x.X.Type(), x.Field).Name()
+					ptr, what = x.X, "field "+fname(fieldVar(x.X.Type(), x.Field))
 				case *ssa.UnOp:
 					if x.Op == token.MUL {
 						switch x.X.(type) {
@@ -539,7 +539,7 @@ func (cx *Ctx) checkSPInvariant(r *Report) bool {
 			if !isFA {
 				continue
 			}
-			o, f := fieldOwner(fa.X.Type()), fieldVar(fa.X.Type(), fa.Field).Name()
+			o, f := fieldOwner(fa.X.Type()), fname(fieldVar(fa.X.Type(), fa.Field))
 			if o == "serviceprovider.ServiceProvider" && f == "Metadata" && fn != ns {
 				ok = false
 				r.Fail("R-NIL-INV", "ServiceProvider.Metadata@"+w.FuncKey(fn), w.InstrPos(st), "ServiceProvider.Metadata is written outside NewServiceProvider: the non-nil invariant of registered providers is not established by the constructor alone")
@@ -960,7 +960,7 @@ func (cx *Ctx) assertFromTypedContainer(vf *VFlow, ta *ssa.TypeAssert) bool {
 			for _, fn := range w.Funcs {
 				for _, st := range cx.Fx.info(fn).stores {
 					fa, ok := st.Addr.(*ssa.FieldAddr)
-					if !ok || fieldOwner(fa.X.Type()) != "sync.Pool" || fieldVar(fa.X.Type(), fa.Field).Name() != "New" {
+					if !ok || fieldOwner(fa.X.Type()) != "sync.Pool" || fname(fieldVar(fa.X.Type(), fa.Field)) != "New" {
 						continue
 					}
 					tg, ok := cx.Fx.funcTargets(st.Val)
@@ -1080,6 +1080,9 @@ func (cx *Ctx) checkHTTPStatus(r *Report, vf *VFlow, fns []*ssa.Function) {
 			n++
 			bad := ""
 			for _, l := range vf.Labels(c.Common().Args[idx]).leaves() {
+				if l == fmt.Sprintf("param:%s/#1", w.FuncKey(fn)) && fn.Name() == "WriteHeader" && fn.Signature.Recv() != nil && fn.Signature.Params().Len() == 1 {
+					continue // a ResponseWriter wrapper forwarding the code it was given: judged at the sites that give it
+				}
 				if !strings.HasPrefix(l, "const:") {
 					bad = "the status code comes from " + l
 					continue
